@@ -15,11 +15,16 @@ func c07Gen(seed uint64, run int, tier string) *Case {
 	c := &Case{Cfg: map[string]int64{}}
 	genSrvCfg(r, c, tier)
 	c.Cfg["nconn"] = int64(r.Pick(1, 1, 1, 2))
+	c.Cfg["autorel"] = int64(r.Intn(2)) // parked implementation calls may wake up in the middle of activity
 	flushop := r.Bool()
 	c.Cfg["flushop"] = b2i(flushop)
 	c.Stratum = "no-flushop"
 	if flushop {
 		c.Stratum = "flushop"
+		if r.Pct(12) {
+			c.Cfg["flushalways"] = 1
+			c.Stratum = "flushop-cancels-unconditionally"
+		}
 	}
 	maxEp := 3
 	if tier == "thorough" {
@@ -94,6 +99,11 @@ func b2i(b bool) int64 {
 }
 
 func c07Exec(x *Ctx) {
+	if x.C.cfg("flushalways") != 0 {
+		// recorded known finding: a FlushOp that calls req.Flush() for a request the framework has
+		// not handed to the implementation yet races with that request's worker
+		x.RulePrefix = "flushunseen:"
+	}
 	w := NewSrvWork(x, x.C.cfg("flushop") != 0)
 	w.FirstQuiescence = func() {
 		// "immediately if the old tag is not outstanding": nothing that is held may delay it
